@@ -63,6 +63,14 @@ def value_for(rng, f):
     return rng.choice(VALS)
 
 
+def inst_arg(cls, m):
+    """the mapping an instance-argument update passes: an instance of cls built from m, or m itself when cls refuses it"""
+    try:
+        return cls.__from__(dict(m))
+    except Exception:
+        return m
+
+
 def rand_ops(rng, fields, dict_based, n):
     ops = []
     for _ in range(n):
@@ -97,7 +105,12 @@ def rand_ops(rng, fields, dict_based, n):
                     m["zz"] = rng.choice(VALS)
                 else:
                     m[k] = value_for(rng, f)
-            ops.append((rng.choice(["update", "ior"]), m))
+            if rng.random() < 0.3:
+                # the argument is an instance of the same class (built from m when m is valid data for it): the keys must go
+                # through the same per-key path as those of a plain mapping
+                ops.append((rng.choice(["update", "ior"]), m, "inst"))
+            else:
+                ops.append((rng.choice(["update", "ior"]), m))
         elif r < 0.92:
             k, f = keys_of(rng, fields)
             ops.append(("setdefault", "zz" if unknown else k, value_for(rng, f)))
@@ -152,8 +165,8 @@ def run_impl(case):
             elif op[0] == "delattr": delattr(cur, op[1])
             elif op[0] == "pop": cur.pop(op[1], None) if op[2] else cur.pop(op[1])
             elif op[0] == "popitem": cur.popitem()
-            elif op[0] == "update": cur.update(op[1])
-            elif op[0] == "ior": cur.__ior__(op[1])
+            elif op[0] == "update": cur.update(inst_arg(cls, op[1]) if len(op) > 2 else op[1])
+            elif op[0] == "ior": cur.__ior__(inst_arg(cls, op[1]) if len(op) > 2 else op[1])
             elif op[0] == "setdefault": cur.setdefault(op[1], op[2])
             elif op[0] == "clear": cur.clear()
             elif op[0] == "copy":
@@ -280,6 +293,8 @@ def run_suite(res, cases, name, per=150):
             cid = world.cid(cls)
             enc = world.encoder()
             ops = [op for op in c["ops"] if op[0] != "copy"]
+            ops = [(op[0], dict(dict.items(a)) if isinstance(a, dict) else op[1]) if (op[0] in ("update", "ior") and len(op) > 2)
+                   else op for op in ops for a in [inst_arg(cls, op[1]) if (op[0] in ("update", "ior") and len(op) > 2) else None]]
             steps = [o[1][0]] + [st for op, st in zip(c["ops"], o[1][1:]) if op[0] != "copy"]
             data = "[%s]" % "; ".join("(%s, %s)" % (core.coq_str(k), enc.val(v)) for k, v in c["data"].items())
             opt = cls.__options__
@@ -453,8 +468,8 @@ def invariant_oracle(case):
             elif op[0] == "delattr": delattr(cur, op[1])
             elif op[0] == "pop": cur.pop(op[1], None) if op[2] else cur.pop(op[1])
             elif op[0] == "popitem": cur.popitem()
-            elif op[0] == "update": cur.update(op[1])
-            elif op[0] == "ior": cur.__ior__(op[1])
+            elif op[0] == "update": cur.update(inst_arg(cls, op[1]) if len(op) > 2 else op[1])
+            elif op[0] == "ior": cur.__ior__(inst_arg(cls, op[1]) if len(op) > 2 else op[1])
             elif op[0] == "setdefault": cur.setdefault(op[1], op[2])
             elif op[0] == "clear": cur.clear()
             elif op[0] == "copy": cur = cur.copy()
@@ -502,6 +517,13 @@ def property_case(rng):
     hide = rng.choice(["", "", "no_output=lambda v: v.startswith('40') or v.startswith('3'), "])
     src = ("class %s(Schema):\n    a: int\n    %s\n\n    @property\n    @Field(%s%sdependencies=['a', 'b'])\n"
            "    def combo(self) -> str:\n        return '%%s|%%s' %% (self.a, self.b)\n" % (name, decl_b, alias, hide))
+    if rng.random() < 0.4:
+        # a subclass that declares a dependency again (with a constraint, or just again): the inherited property must follow the
+        # subclass's field
+        sub = name + "Sub"
+        redecl = rng.choice(["    a: int = Field(ge=-1000)\n", "    a: int\n", "    %s\n" % decl_b, "    a: int = Field(le=10 ** 6)\n    %s\n" % decl_b])
+        src += "\nclass %s(%s):\n%s" % (sub, name, redecl)
+        name = sub
     dyn.declare(src)
     ops = []
     for _ in range(rng.randint(1, 5)):
